@@ -213,17 +213,50 @@ def exhaustive(k, n, maxlen, stats):
 
 # ------------------------------------------------------------------ (b) + (c) hypothesis
 
+_SEEDS = []
+
+
+def seed_descriptions():
+    """Descriptions harvested from the repository's tests and tutorials plus a few nested-ellipsis shapes."""
+    if not _SEEDS:
+        import os
+
+        with open(os.path.join(os.path.dirname(os.path.dirname(__file__)), "seed_descriptions.txt")) as f:
+            _SEEDS.extend([l.rstrip("\n") for l in f if l.strip()])
+    return _SEEDS
+
+
 ALPHA = list("abcxyz_ABC0123456789()[],+-> .")
 
 
 @st.composite
 def text_case(draw):
-    kind = draw(st.sampled_from(["tokens", "chars", "valid", "mutated", "deep"]))
+    kind = draw(st.sampled_from(["tokens", "chars", "valid", "mutated", "mutated", "deep", "seeded", "seeded"]))
+    origin_op = None
     if kind == "tokens":
         toks = draw(st.lists(st.sampled_from(TOKENS + ["c", "ab", "a1", "_x", "10", "3", "a", "b", " ", " "]), min_size=0, max_size=24))
         s = "".join(toks)
     elif kind == "chars":
         s = draw(st.text(alphabet=st.one_of(st.sampled_from(ALPHA), st.characters(min_codepoint=1, max_codepoint=0x2FF)), max_size=30))
+    elif kind == "seeded":
+        s = draw(st.sampled_from(seed_descriptions()))
+        toks = lex(s)
+        for _ in range(draw(st.integers(0, 2))):
+            if not toks:
+                break
+            i = draw(st.integers(0, len(toks) - 1))
+            m = draw(st.sampled_from(["del", "dup", "swap", "ins", "ell"]))
+            if m == "del":
+                toks.pop(i)
+            elif m == "dup":
+                toks.insert(i, toks[i])
+            elif m == "swap" and i + 1 < len(toks):
+                toks[i], toks[i + 1] = toks[i + 1], toks[i]
+            elif m == "ell":
+                toks.insert(i + 1, "...")
+            else:
+                toks.insert(i, draw(st.sampled_from(TOKENS)))
+        s = "".join(toks)
     elif kind == "deep":
         d = draw(st.integers(5, 40))
         o = draw(st.sampled_from(["(", "["]))
@@ -234,6 +267,7 @@ def text_case(draw):
             s = s + " -> " + inner.replace("+", " ")
     else:
         case = draw(G.call_case(quick=True))
+        origin_op = case["op"]
         s = case["desc"]
         if draw(st.booleans()):
             s = X.p_desc(case["ins"])
@@ -253,7 +287,7 @@ def text_case(draw):
                 else:
                     toks.insert(i, draw(st.sampled_from(TOKENS)))
             s = "".join(toks)
-    return {"kind": "string", "string": s, "op_seed": draw(st.integers(0, 10**6))}
+    return {"kind": "string", "string": s, "op_seed": draw(st.integers(0, 10**6)), "origin_op": origin_op}
 
 
 PUBLIC_OPS = ["id", "add", "sum", "dot", "get_at", "set_at", "softmax", "sort", "roll", "argmax", "where", "logsumexp", "flip"]
